@@ -116,6 +116,7 @@ def run_unit(unit_name, tier, seed):
     out['unit_lines'] = text.count('\n')
     lines = text.split('\n')
     rlimit = 20 if tier == 'quick' else 40
+    rlimit = max(rlimit, getattr(mod, 'RLIMIT', 0))     # a unit may ask for a larger (fixed) solver budget; stated in its builder
     res = vlib.run_verus(path, rlimit=rlimit)
     # resolution error caused by a ghost hint that names a variable the function no longer has: drop those hints
     # (hints never add assumptions) and retry - the obligations then fail or pass on their own merits
@@ -365,7 +366,7 @@ def thorough_extras(pid, P, units, seed):
         if not os.path.exists(p):
             continue
         for k in (1, 2):
-            r = vlib.run_verus(p, seed=(seed + 17 * k) % 1000 + k, rlimit=40)
+            r = vlib.run_verus(p, seed=(seed + 17 * k) % 1000 + k, rlimit=max(40, getattr(importlib.import_module('units.' + u), 'RLIMIT', 0)))
             stab.append({'unit': u, 'seed': (seed + 17 * k) % 1000 + k, 'status': r['status'], 'verified': r['verified'], 'errors': r['errors']})
             if r['status'] != 'ok':
                 und.append('stability: unit %s fails with another Z3 seed (%s)' % (u, r['status']))
